@@ -54,6 +54,12 @@ def run(ck):
         # batch-dependent noise in the AGOP.  Tolerance for that kernel is 1e-6, for all others 1e-9.
         tolA = 1e-6 if kern == 'l2_high_dim' else 1e-9
         tolQ = '(1#1000000)' if kern == 'l2_high_dim' else '(1#100000000)'
+        if kern == 'l2_high_dim':
+            # ... and that noise is proportional to the coefficients: exactly repeated rows with different targets get coefficients of order 1/(2 reg) = 50
+            amax = float(m.weights.abs().max())
+            if amax > 10:
+                tolA = 1e-7 * amax; tolQ = f'({int(amax) + 1}#10000000)'
+            ck.notes.append(f'light kernel: max |coefficient| {amax:.3g}, AGOP tolerance {tolA:.2g}') if amax > 10 else None
         ck.count(f'kernel={kern}'); ck.count('diag' if diag else 'full'); ck.count(f'centring={centring}'); ck.count(f'outputs={nout}')
         mat = m.sqrtM if m.use_sqrtM else m.M
         with xr.quiet():
@@ -129,6 +135,49 @@ def run(ck):
             ck.violation(f'agop_best_model is not the AGOP of the returned predictor on {desc}', dict(desc), key='agop-best')
         if not diag and not centring:
             md = xr.RealRFM(kernel=kern, iters=0, bandwidth=2.0, exponent=[1.0, 1.3][i % 2], device='cpu', diag=False, verbose=False, **extra)
+    # ---- independent gradients: for the L2 and product kernels (exponents 1, 1.4 and EXACTLY 2) the matrix fit_M computes is compared with the normalised sum of outer products
+    #      of the gradients of the CURRENT predictor obtained by automatic differentiation (float64) of the documented closed form, each point's own term left out —
+    #      nothing of the library's gradient code is used
+    for i in range(ck.n(6, 24)):
+        kern = ['l2', 'l1'][i % 2]; qi = [2.0, 1.0, 1.4, 2][(i // 2) % 4]; diag_i = bool((i // 3) % 2); nout_i = [1, 2][i % 2]
+        n_i, d_i = 12, 3
+        Xi = rng.standard_normal((n_i, d_i)); Yi = rng.standard_normal((n_i, nout_i))
+        desci = dict(kind='independent-gradient', i=i, kernel=kern, exponent=qi, diag=diag_i, nout=nout_i, n=n_i, d=d_i, seed=ck.seed)
+        xr.seed_all(1470 + i + ck.seed)
+        mi = xr.RealRFM(kernel=kern, iters=1, bandwidth=2.5, exponent=qi, device='cpu', diag=diag_i, verbose=False, tuning_metric='mse')
+        try:
+            with xr.quiet():
+                mi.fit((T(Xi), T(Yi)), (T(Xi[:5]), T(Yi[:5])), iters=1, reg=1e-2, verbose=False, return_best_params=False)
+                got_i = mi.fit_M(mi.centers, nout_i, M_batch_size=n_i, inplace=False).double()
+        except Exception as e:
+            ck.violation(f'fit raised {e!r} on {desci}', dict(desci), key='fit-raise'); continue
+        C = mi.centers.double(); A = mi.weights.double().reshape(n_i, -1); Lb = float(mi.kernel_obj.bandwidth); q_ = float(qi)
+        Tm = mi.sqrtM if mi.use_sqrtM else mi.M
+        def tr(v):
+            if Tm is None:
+                return v
+            return v * Tm.double() if Tm.dim() == 1 else v @ Tm.double()
+        raw = torch.zeros(d_i, d_i, dtype=torch.float64)
+        for k in range(n_i):
+            keep = [j for j in range(n_i) if j != k and float((C[j] - C[k]).abs().max()) > 0]
+            x = C[k].clone().requires_grad_(True)
+            U = tr(x[None, :] - C[keep])
+            if kern == 'l2':
+                Kv = torch.exp(-(U.pow(2).sum(1).sqrt() ** q_) / Lb ** q_)
+            else:
+                Kv = torch.exp(-(U.abs() ** q_).sum(1) / Lb ** q_)
+            f = Kv @ A[keep]
+            for l in range(f.shape[0]):
+                g = torch.autograd.grad(f[l], x, retain_graph=True)[0]
+                raw += torch.outer(g, g)
+        want_i = raw / raw.max()
+        if got_i.dim() == 1:
+            want_i = torch.diagonal(raw) / torch.diagonal(raw).max()
+        dev_i = float((got_i - want_i).abs().max())
+        ck.case(dict(desci, dev=dev_i), nontrivial=True); ck.count(f'independent gradient, exponent {qi!r}')
+        if not (dev_i <= 1e-6):
+            ck.violation(f'fit_M differs by {dev_i:.3g} from the normalised AGOP of the current predictor computed from automatic derivatives of the documented kernel '
+                         f'(own terms left out) on {desci}', dict(desci, dev=dev_i, got=got_i.tolist(), want=want_i.tolist()), key=json.dumps(dict(site='agop', what='independent-gradient', kernel=kern)))
     # ---- wide data (more features than samples), several rounds with return_Ms: the matrix recorded at EVERY round is the normalised AGOP of that round's predictor
     #      (recomputed independently from the gradients of a model rebuilt from that round's state is expensive; the cheap necessary condition: the recorded matrices
     #      of different rounds differ from each other as much as successive fit_M(inplace=False) calls say, and the LAST recorded matrix is the stored one)
@@ -185,7 +234,7 @@ def run(ck):
         if m.use_sqrtM and m.sqrtM is not None and m.M is not None:
             R = m.sqrtM.double().numpy(); Mm = m.M.double().numpy()
             dev = float(np.max(np.abs(R @ R - Mm)))
-            if dev > 1e-6:
+            if dev > (1e-6 if yscale != 1e-5 else 2e-5):        # float32 fits (target scale 1e-5): the root is a float32 SVD, it squares back to float32 accuracy
                 ck.violation(f'stored root does not square back to the stored feature matrix (max dev {dev:.3g}) after {iters} rounds on a fast-converging fit on {desc}',
                              dict(desc, dev=dev), key='root')
             # rounding level of the dtype the fit ran in: a fast-converging fit makes the matrix (numerically) rank deficient, its smallest eigenvalue is 0 +- one ulp of the largest
